@@ -31,6 +31,7 @@
 #include <memory>
 
 #include "cache.hh"
+#include <stdexcept>
 #include "dwpp.hh"
 #include "dwit.hh"
 
@@ -92,8 +93,10 @@ parent_cache::find (Dwarf_Die die)
        return a.first < b;
      });
 
-  assert (jt != it->second.end ());
-  assert (jt->first == dieoff);
+  // A reference can lead to something that is not a DIE of the unit (e.g. to
+  // the null entry that closes a list of children).
+  if (jt == it->second.end () || jt->first != dieoff)
+    throw std::runtime_error ("parent of a DIE that its unit does not list");
   return jt->second;
 }
 
